@@ -47,7 +47,7 @@ var privKeys [][]byte // index k-1
 var pubKeys [][]byte
 
 func initKeys() {
-	for k := 1; k <= 24; k++ {
+	for k := 1; k <= 64; k++ {
 		d := sha256.Sum256([]byte(fmt.Sprintf("verif-c33-key-%d", k)))
 		pk := crypto.PublicKey{}
 		pk.X, pk.Y = crypto.DefaultCurve.ScalarBaseMult(d[:])
@@ -62,7 +62,7 @@ func initKeys() {
 
 // keyBytes mirrors C33_corr.keybytes.
 func keyBytes(k int) []byte {
-	if k >= 1 && k <= 24 {
+	if k >= 1 && k <= 64 {
 		return pubKeys[k-1]
 	}
 	return bytes.Repeat([]byte{byte(((k % 256) + 256) % 256)}, 33)
@@ -120,6 +120,16 @@ func coqArbsOpt(l, cc []arb) string {
 		}
 	}
 	return "(Some " + coqArbs(l) + ")"
+}
+
+// nArbs: n normal arbiters; keys 1..64, cycling for larger sets (the Schnorr
+// path never compares arbiter keys with each other).
+func nArbs(n int) []arb {
+	var r []arb
+	for i := 0; i < n; i++ {
+		r = append(r, arb{i%64 + 1, true})
+	}
+	return r
 }
 
 func twelve() []arb {
@@ -614,6 +624,12 @@ func validScript(cc []arb, m int, r *lib.Rng) code {
 
 func genArbs(r *lib.Rng) (ar, crc, cc []arb) {
 	cc = twelve()
+	if r.Chance(25) { // main-net sized and larger sets: signer indexes beyond 12, 31/32, 63/64, up to 255
+		cc = nArbs(int(r.PickI64(13, 24, 31, 32, 33, 35, 36, 37, 40, 64, 65, 128, 200, 255, 256)))
+		ar = append([]arb{}, cc...)
+		crc = append([]arb{}, cc...)
+		return
+	}
 	switch r.Intn(8) {
 	case 0: // one non-normal cross-chain arbiter
 		cc[r.Intn(12)].normal = false
@@ -1068,7 +1084,7 @@ func main() {
 	config.DefaultParams = *config.GetDefaultParams()
 	initKeys()
 
-	st := lib.NewStats("C33", "WithdrawFromSideChain checks (cross-chain UTXO policy + SpecialContextCheck) on the real transaction objects with a controlled arbiter set (12 fixed P-256 keys, normal flags, distinct GetArbitrators/GetCRCArbiters/GetCrossChainArbiters lists) and a real ffldb chain store: mostly-valid V0/V1/V2 withdrawals with 0-2 mutations (m/n/key set/last byte/truncation of the script, input prefixes, signer lists with duplicates and out-of-range indexes, payload versions 3/4/255), all nine height parameters from a boundary set, store contents; exhaustive signer lists of length <= 3 over indexes {0..12,255} on both sides of the restriction height; histories of save/rollback/check/probe/CheckDuplicateTx/mempool-key steps (<= 30) and block histories repeating a side-chain hash. nontrivial = accepted withdrawal, or a rejection caused by the store/arbiter set (not by a malformed script); distinct by canonical case text")
+	st := lib.NewStats("C33", "WithdrawFromSideChain checks (cross-chain UTXO policy + SpecialContextCheck) on the real transaction objects with a controlled arbiter set (12 to 256 arbiters over 64 fixed P-256 keys, normal flags, distinct GetArbitrators/GetCRCArbiters/GetCrossChainArbiters lists) and a real ffldb chain store: mostly-valid V0/V1/V2 withdrawals with 0-2 mutations (m/n/key set/last byte/truncation of the script, input prefixes, signer lists with duplicates and out-of-range indexes, payload versions 3/4/255), all nine height parameters from a boundary set, store contents; exhaustive signer lists of length <= 3 over boundary index sets for 12, 36 and 256 arbiters ({0..12,255}, {0,1,31,32,33,35,36,255}, {0,31,32,63,64,65,127,128,254,255}) on both sides of the restriction height; histories of save/rollback/check/probe/CheckDuplicateTx/mempool-key steps (<= 30) block histories repeating a side-chain hash, and block histories with mixed payload versions whose payload hashes and output hashes overlap (connect / disconnect / re-withdraw). nontrivial = accepted withdrawal, or a rejection caused by the store/arbiter set (not by a malformed script); distinct by canonical case text")
 	sh := &lib.Shards{Dir: run.Out, Imports: "From ELA Require Import model.C33_Withdraw corr.C33_corr.", CaseType: "C33_corr.case",
 		Mismatch: "C33_corr.mismatches", Scope: "Z", PerShard: 150}
 	id := 0
@@ -1160,7 +1176,7 @@ func main() {
 		// duplicate / out-of-range signer on both sides of the restriction height
 		for _, h := range []uint32{99, 100} {
 			c := base
-			c.height = h
+			c.height, c.freeze = h, 100
 			doCheck("corpus", c, tw, tw, tw, 12, 8, nil, v2tx([]byte{0, 0, 1, 2, 3, 4, 5, 6, 7}, []int{1}), nil)
 			d := v2tx(nine, []int{1})
 			d.signers = []byte{0, 1, 2, 3, 4, 5, 6, 7, 12}
@@ -1189,6 +1205,56 @@ func main() {
 						}
 						doCheck("corpus", c, tw, tw, tw, 12, 8, nil, t, nil)
 					}
+				}
+			}
+		}
+		// quorum of DISTINCT arbiters with main-net sized and larger sets: one index
+		// repeated up to the threshold, a duplicate far apart, every region of uint8
+		for _, n := range []int{33, 36, 40, 64, 255, 256} {
+			cc := nArbs(n)
+			for _, h := range []uint32{99, 100, 101} {
+				c := base
+				c.height, c.member, c.freeze = h, uint32(n), 100
+				if n > 200 {
+					c.member = 36
+				}
+				thr := c.threshold()
+				for _, idx := range []int{0, 31, 32, 33, n / 2, n - 2, n - 1} {
+					if idx >= n || idx < 0 {
+						continue
+					}
+					var alone []byte
+					for j := 0; j < thr; j++ {
+						alone = append(alone, byte(idx))
+					}
+					t := &txd{pver: 2, oh: []int{1}, refs: []byte{0x4b}, signers: alone}
+					t.build(0, cc, nil)
+					t.progs = []code{{raw: t.aggv}}
+					doCheck("corpus", c, cc, cc, cc, n, 8, nil, t, nil)
+					// distinct signers, then the last one repeats idx
+					var far []byte
+					far = append(far, byte(idx))
+					for j := 0; len(far) < thr; j++ {
+						if j != idx {
+							far = append(far, byte(j))
+						}
+					}
+					far[len(far)-1] = byte(idx)
+					t2 := &txd{pver: 2, oh: []int{1}, refs: []byte{0x4b}, signers: far}
+					t2.build(0, cc, nil)
+					t2.progs = []code{{raw: t2.aggv}}
+					doCheck("corpus", c, cc, cc, cc, n, 8, nil, t2, nil)
+				}
+				// control: distinct signers are accepted
+				var ok []byte
+				for j := 0; j < thr; j++ {
+					ok = append(ok, byte(n-1-j))
+				}
+				t3 := &txd{pver: 2, oh: []int{1}, refs: []byte{0x4b}, signers: ok}
+				t3.build(0, cc, nil)
+				t3.progs = []code{{raw: t3.aggv}}
+				if doCheck("corpus", c, cc, cc, cc, n, 8, nil, t3, nil) != 0 {
+					st.Fail("corpus:v2-large-set", "valid V2 withdrawal with distinct signers of a large arbiter set is not accepted", nil)
 				}
 			}
 		}
@@ -1236,70 +1302,84 @@ func main() {
 		doCheck("gen", c, ar, crc, cc, ccCount, ccM, stored, t, r)
 	}
 
-	// ---- exhaustive signer lists of length <= 3
+	// ---- exhaustive signer lists of length <= 3, for several arbiter-set sizes
 	{
-		setArbs(twelve(), twelve(), twelve(), 12, 8)
-		dom := []int{0, 1, 2, 3, 4, 5, 6, 7, 8, 9, 10, 11, 12, 255}
+		type sweepCfg struct {
+			n   int
+			dom []int
+		}
+		sweeps := []sweepCfg{
+			{12, []int{0, 1, 2, 3, 4, 5, 6, 7, 8, 9, 10, 11, 12, 255}},
+			{36, []int{0, 1, 31, 32, 33, 35, 36, 255}},              // main-net size: indexes around 32 and the end
+			{256, []int{0, 31, 32, 63, 64, 65, 127, 128, 254, 255}}, // every uint8 is in range
+		}
 		mcs := []uint32{3}
 		if run.Thorough() {
 			mcs = []uint32{0, 1, 3, 4, 5}
+			sweeps = append(sweeps, sweepCfg{33, []int{0, 30, 31, 32, 33, 34}}, sweepCfg{40, []int{7, 8, 15, 16, 31, 32, 39, 40}},
+				sweepCfg{65, []int{0, 32, 63, 64, 65, 128}}, sweepCfg{255, []int{0, 127, 128, 253, 254, 255}})
 		}
-		var lists [][]byte
-		lists = append(lists, []byte{})
-		for _, a := range dom {
-			lists = append(lists, []byte{byte(a)})
-			for _, b := range dom {
-				lists = append(lists, []byte{byte(a), byte(b)})
-				for _, c := range dom {
-					lists = append(lists, []byte{byte(a), byte(b), byte(c)})
+		for _, sw := range sweeps {
+			cc := nArbs(sw.n)
+			setArbs(cc, cc, cc, sw.n, 8)
+			dom := sw.dom
+			var lists [][]byte
+			lists = append(lists, []byte{})
+			for _, a := range dom {
+				lists = append(lists, []byte{byte(a)})
+				for _, b := range dom {
+					lists = append(lists, []byte{byte(a), byte(b)})
+					for _, c := range dom {
+						lists = append(lists, []byte{byte(a), byte(b), byte(c)})
+					}
 				}
 			}
-		}
-		for _, mc := range mcs {
-			for _, h := range []uint32{99, 100} {
-				baseID := id + 1
-				tab := map[string][]byte{}
-				var tabKeys []string
-				var outs []string
-				for _, sg := range lists {
-					c := cfg{height: h, schnorr: maxU32, crClaim: maxU32, dposCC: maxU32, freeze: 0, restr: 100, member: mc}
-					t := &txd{pver: 2, refs: []byte{0x4b}, signers: sg}
-					t.build(0, mock.cc, nil)
-					if t.aggv != nil {
-						t.progs = []code{{raw: t.aggv}}
+			for _, mc := range mcs {
+				for _, h := range []uint32{99, 100} {
+					baseID := id + 1
+					tab := map[string][]byte{}
+					var tabKeys []string
+					var outs []string
+					for _, sg := range lists {
+						c := cfg{height: h, schnorr: maxU32, crClaim: maxU32, dposCC: maxU32, freeze: 100, restr: 100, member: mc}
+						t := &txd{pver: 2, refs: []byte{0x4b}, signers: sg}
 						t.build(0, mock.cc, nil)
-						srt := append([]byte{}, sg...)
-						sort.Slice(srt, func(a, b int) bool { return srt[a] < srt[b] })
-						k := coqBs(srt)
-						if prev, ok := tab[k]; ok {
-							if !bytes.Equal(prev, t.aggv) {
-								panic("aggregate key depends on the order of the signers")
+						if t.aggv != nil {
+							t.progs = []code{{raw: t.aggv}}
+							t.build(0, mock.cc, nil)
+							srt := append([]byte{}, sg...)
+							sort.Slice(srt, func(a, b int) bool { return srt[a] < srt[b] })
+							k := coqBs(srt)
+							if prev, ok := tab[k]; ok {
+								if !bytes.Equal(prev, t.aggv) {
+									panic("aggregate key depends on the order of the signers")
+								}
+							} else {
+								tab[k] = t.aggv
+								tabKeys = append(tabKeys, k)
 							}
-						} else {
-							tab[k] = t.aggv
-							tabKeys = append(tabKeys, k)
+						}
+						out, why := withdrawCheck(t, c)
+						i := next()
+						outs = append(outs, fmt.Sprint(out))
+						js := map[string]interface{}{"op": "sweep", "arbiters": sw.n, "height": h, "member_count": mc, "signers": coqBs(sg), "out": outName(out), "why": why}
+						st.LogCase(run.Out, i, js)
+						st.Count(fmt.Sprintf("sw|%d|%d|%d|%v|%d", sw.n, h, mc, sg, out), true, "sweep:"+outName(out))
+						if out == 2 {
+							st.Fail("ContextCheck:panic", "withdraw check panicked: "+why, js)
+						}
+						if out == 0 {
+							if sig, what := quorumViolation(t, c, mock, func(int) bool { return false }); sig != "" {
+								st.Fail(sig, what, js)
+							}
 						}
 					}
-					out, why := withdrawCheck(t, c)
-					i := next()
-					outs = append(outs, fmt.Sprint(out))
-					js := map[string]interface{}{"op": "sweep", "height": h, "member_count": mc, "signers": coqBs(sg), "out": outName(out), "why": why}
-					st.LogCase(run.Out, i, js)
-					st.Count(fmt.Sprintf("sw|%d|%d|%v|%d", h, mc, sg, out), true, "sweep:"+outName(out))
-					if out == 2 {
-						st.Fail("ContextCheck:panic", "withdraw check panicked: "+why, js)
+					var rows []string
+					for _, k := range tabKeys {
+						rows = append(rows, fmt.Sprintf("(%s,%s)", k, lib.CoqBytes(tab[k])))
 					}
-					if out == 0 {
-						if sig, what := quorumViolation(t, c, mock, func(int) bool { return false }); sig != "" {
-							st.Fail(sig, what, js)
-						}
-					}
+					sh.Add(fmt.Sprintf("CSweep %d %d %d %s %s %s %s", baseID, h, mc, coqArbs(cc), coqIs(dom), lib.CoqList(rows), lib.CoqList(outs)))
 				}
-				var rows []string
-				for _, k := range tabKeys {
-					rows = append(rows, fmt.Sprintf("(%s,%s)", k, lib.CoqBytes(tab[k])))
-				}
-				sh.Add(fmt.Sprintf("CSweep %d %d %d %s %s %s", baseID, h, mc, coqIs(dom), lib.CoqList(rows), lib.CoqList(outs)))
 			}
 		}
 	}
@@ -1329,6 +1409,16 @@ func main() {
 					t.oh = append(t.oh, h)
 				}
 			}
+			// cross-version content: a V0 transaction may carry withdraw-typed outputs, a
+			// V1/V2 transaction payload hashes (in memory); neither is looked at by its
+			// own check nor owned by its save/rollback processors
+			if r.Chance(35) {
+				if pv == 0 {
+					t.oh = append(t.oh, r.Intn(pool))
+				} else if pv == 1 || pv == 2 {
+					t.ph = append(t.ph, r.Intn(pool))
+				}
+			}
 			if pv == 2 {
 				t.signers = genSigners(r, 9, 12, true)
 				var ks [][]byte
@@ -1347,11 +1437,48 @@ func main() {
 		return txs
 	}
 	v2rbObserved := false
-	runHist := func(kind string, r *lib.Rng, wellFormed bool) {
+	runHist := func(kind string, r *lib.Rng, wellFormed bool, mixed bool) {
 		i := next()
 		setArbs(tw, tw, tw, 12, 8)
 		const hp = 4
 		txs := mkTxs(r, r.Range(3, 6), hp, wellFormed)
+		var plan [][]int // scripted prefix of the block history; an empty entry = disconnect
+		if mixed {
+			// T0 owns hash 0 (V1/V2 output); T1 owns hash 1 and names hash 0 in the field its
+			// version does not own; T2/T3 try to withdraw hash 0 again
+			sig := func(t *txd) *txd {
+				if t.pver == 2 {
+					t.signers = genSigners(r, 9, 12, true)
+					var ks [][]byte
+					for _, i := range t.signers {
+						ks = append(ks, keyBytes(int(i)+1))
+					}
+					t.progs = []code{{raw: schnorrScript(ks)}}
+				} else if t.pver != 3 {
+					t.progs = []code{validScript(tw, 8, r)}
+				}
+				return t
+			}
+			t0 := sig(&txd{pver: byte(r.PickU64(1, 2)), oh: []int{0}, refs: []byte{0x4b}})
+			t1 := &txd{pver: byte(r.PickU64(0, 0, 1, 2, 3)), refs: []byte{0x4b}}
+			switch t1.pver {
+			case 0:
+				t1.ph, t1.oh = []int{1}, []int{0}
+			case 3:
+				t1.ph, t1.oh = []int{0}, []int{0}
+			default:
+				t1.ph, t1.oh = []int{0}, []int{1}
+			}
+			sig(t1)
+			t2 := sig(&txd{pver: byte(r.PickU64(1, 2)), oh: []int{0}, refs: []byte{0x4b}})
+			t3 := sig(&txd{pver: 0, ph: []int{0}, refs: []byte{0x4b}})
+			txs = append([]*txd{t0, t1, t2, t3}, txs...)
+			if r.Chance(70) {
+				plan = [][]int{{0}, {1}, {}, {2}, {3}}
+			} else {
+				plan = [][]int{{1}, {0}, {}, {2}, {}, {}, {3}}
+			}
+		}
 		for _, t := range txs {
 			t.build(i, tw, r)
 		}
@@ -1445,8 +1572,28 @@ func main() {
 			// if CheckDuplicateTx and all checks pass; disconnect pops the last block.
 			active := map[int]int{} // hash -> number of connected withdrawals recording it
 			var chain [][]int
-			for n := r.Range(4, 9); n > 0; n-- {
-				if len(chain) > 0 && r.Chance(30) {
+			checkActive := func() {
+				// property oracle: every hash withdrawn on the active chain is in the Tx3 index
+				for h, c := range active {
+					if c > 0 && !store.IsSidechainTxHashDuplicate(hashOf(i, h)) {
+						st.Fail("Tx3:active-hash-not-recorded", "a side-chain hash withdrawn by a transaction on the active chain is no longer in the Tx3 index (it can be withdrawn again)",
+							map[string]interface{}{"hash": h, "history": append([]string{}, log...), "txs": func() []interface{} {
+								var l []interface{}
+								for _, t := range txs {
+									l = append(l, t.json())
+								}
+								return l
+							}()})
+					}
+				}
+			}
+			for n := r.Range(4, 9) + len(plan); n > 0; n-- {
+				var scripted []int
+				isScripted := false
+				if len(plan) > 0 {
+					scripted, plan, isScripted = plan[0], plan[1:], true
+				}
+				if len(chain) > 0 && ((isScripted && len(scripted) == 0) || (!isScripted && r.Chance(30))) {
 					b := chain[len(chain)-1]
 					chain = chain[:len(chain)-1]
 					for _, k := range b {
@@ -1455,6 +1602,10 @@ func main() {
 							active[h]--
 						}
 					}
+					checkActive()
+					continue
+				}
+				if isScripted && len(scripted) == 0 {
 					continue
 				}
 				var blk []int
@@ -1464,11 +1615,16 @@ func main() {
 						used[k] = true
 					}
 				}
-				for j := r.Range(1, 2); j > 0; j-- {
+				for j := r.Range(1, 2); j > 0 && !isScripted; j-- {
 					k := r.Intn(len(txs))
 					if !used[k] {
 						blk = append(blk, k)
 						used[k] = true
+					}
+				}
+				for _, k := range scripted {
+					if !used[k] {
+						blk = append(blk, k)
 					}
 				}
 				if len(blk) == 0 {
@@ -1506,6 +1662,7 @@ func main() {
 					}
 					chain = append(chain, blk)
 				}
+				checkActive()
 				for h := 0; h < hp; h++ {
 					probe(h)
 				}
@@ -1532,10 +1689,13 @@ func main() {
 		st.Extra["v2_has_rollback_processor"] = v2rbObserved
 	}
 	for k := 0; k < run.N(100, 1500); k++ {
-		runHist("hist-free", rng.Fork(), false)
+		runHist("hist-free", rng.Fork(), false, false)
 	}
-	for k := 0; k < run.N(100, 1500); k++ {
-		runHist("hist-blocks", rng.Fork(), true)
+	for k := 0; k < run.N(80, 1500); k++ {
+		runHist("hist-blocks", rng.Fork(), true, false)
+	}
+	for k := 0; k < run.N(60, 1000); k++ {
+		runHist("hist-mixed-versions", rng.Fork(), true, true)
 	}
 
 	fullReplay(st, run, mock)
